@@ -482,7 +482,15 @@ func (s *detStore) Get(ctx context.Context, key string, rate limiter.Rate) (limi
 func (s *detStore) Peek(ctx context.Context, key string, rate limiter.Rate) (limiter.Context, error) {
 	return limiter.Context{}, nil
 }
+
+// Reset wipes the counter of a key: the store is shared by every stream that uses the limiter, so an operator that calls it
+// (e.g. when one of its subscriptions ends) hands a fresh quota to everybody inside the current window. Recorded among the
+// answers: the model's store is only ever asked, never reset.
 func (s *detStore) Reset(ctx context.Context, key string, rate limiter.Rate) (limiter.Context, error) {
+	s.mu.Lock()
+	defer s.mu.Unlock()
+	delete(s.counts, key)
+	s.answers = append(s.answers, "reset:"+key)
 	return limiter.Context{}, nil
 }
 func (s *detStore) Increment(ctx context.Context, key string, count int64, rate limiter.Rate) (limiter.Context, error) {
